@@ -1,7 +1,7 @@
 _OPTS = {"prop": "C24", "strata": "setop", "big": "small", "allow": "sort_limit,null_lit", "deny": "subquery,derived"}
 ENTRY = {
     "level": "proof",
-    "families": [fam("SQL", 400, 20000, opts={"quick": _OPTS, "thorough": dict(_OPTS, sizes="tiny,small,mid")})],
+    "families": [fam("SQL", 400, 4000, opts={"quick": _OPTS, "thorough": dict(_OPTS, sizes="tiny,small,mid")})],
     "gen_items": [],
     "rule": "generated statements: two or three SELECTs (1-3 columns of generated tables with duplicates and NULL density 0/10/50/100 %, optional WHERE) combined by "
             "UNION / INTERSECT / EXCEPT, each with and without ALL, nested left-deep, optionally under ORDER BY / LIMIT; run through ExecutionContext::sql over single- and "
